@@ -140,12 +140,55 @@ impl Stats {
 
 pub trait Lane {
     const ID: &'static str;
-    type Body: Serialize + DeserializeOwned + Clone + std::fmt::Debug;
+    type Body: Serialize + DeserializeOwned + Clone + std::fmt::Debug + Send + 'static;
     fn draw(rng: &mut Rng, tier: Tier, run_index: u64) -> Scenario<Self::Body>;
     /// Execute the scenario under all of its configurations and judge it.
     fn run(sc: &Scenario<Self::Body>, st: &mut Stats) -> Vec<Violation>;
+    /// Whether `run` is executed as the main task of an ambient execution (see `exec::run_ambient`).
+    /// The ledger lane of C13 measures the heap around its own executions and opts out.
+    const AMBIENT: bool = true;
     /// Smaller variants of the body (the framework shrinks configurations itself).
     fn shrink(body: &Self::Body) -> Vec<Self::Body>;
+}
+
+/// `L::run` inside the ambient execution.
+pub fn run_lane<L: Lane>(sc: &Scenario<L::Body>, st: &mut Stats) -> Vec<Violation>
+where
+    L::Body: Send + 'static,
+{
+    if !L::AMBIENT {
+        return L::run(sc, st);
+    }
+    let conf = crate::exec::ambient_conf(digest(serde_json::to_string(sc).unwrap_or_default().as_bytes()));
+    let sc2 = sc.clone();
+    let st_in = std::mem::take(st);
+    let rep = crate::exec::run_ambient(&conf, move || {
+        let mut st = st_in;
+        let vs = L::run(&sc2, &mut st);
+        (vs, st)
+    });
+    let mut vs = Vec::new();
+    match rep.value {
+        Some((v, s)) => {
+            vs = v;
+            *st = s;
+        }
+        None => {
+            st.bump("note/ambient_execution_failed");
+        }
+    }
+    if rep.log.max_task > 0 {
+        // a function outside the hand-threaded eight started workers: they were scheduled here
+        st.bump("probe/workers_scheduled_by_the_ambient_execution");
+    }
+    if let Some(f) = rep.failure {
+        match f {
+            // a panic that no guard caught is a harness error, exactly as without the ambient execution
+            crate::exec::Failure::Panic(m) => panic!("{m}"),
+            f => vs.push(Violation::new(f.class(), "ambient", &format!("{:?} CPUs", conf.cpu), format!("the ambient execution ({:?}) did not finish: {}", conf, f.message()))),
+        }
+    }
+    vs
 }
 
 pub fn run_seed(verif_seed: u64, property: &str, tier: Tier, run_index: u64) -> u64 {
@@ -228,7 +271,7 @@ pub fn worker<L: Lane>(a: &WorkerArgs) -> i32 {
         let sc = L::draw(&mut rng, a.tier, idx);
         let before = (st.executions, st.steps);
         let sd_len = st.sched_digests.len();
-        let vs = L::run(&sc, &mut st);
+        let vs = run_lane::<L>(&sc, &mut st);
         st.runs += 1;
         // per-run digest over this run's schedule digests only
         let mut tmp = Stats::default();
@@ -331,7 +374,7 @@ pub fn replay<L: Lane>(path: &str) -> Result<(ReplayFile<L::Body>, Vec<Violation
     let text = std::fs::read_to_string(path).map_err(|e| format!("read {path}: {e}"))?;
     let rf: ReplayFile<L::Body> = serde_json::from_str(&text).map_err(|e| format!("parse {path}: {e}"))?;
     let mut st = Stats::default();
-    let vs = L::run(&rf.scenario, &mut st);
+    let vs = run_lane::<L>(&rf.scenario, &mut st);
     Ok((rf, vs))
 }
 
@@ -345,7 +388,7 @@ pub fn run_isolated<L: Lane>(sc: &Scenario<L::Body>) -> Vec<Violation> {
     let mut fds = [0 as libc::c_int; 2];
     if unsafe { libc::pipe(fds.as_mut_ptr()) } != 0 {
         let mut st = Stats::default();
-        return L::run(sc, &mut st);
+        return run_lane::<L>(sc, &mut st);
     }
     let pid = unsafe { libc::fork() };
     if pid == 0 {
@@ -353,7 +396,7 @@ pub fn run_isolated<L: Lane>(sc: &Scenario<L::Body>) -> Vec<Violation> {
             let _ = libc::close(fds[0]);
         }
         let mut st = Stats::default();
-        let vs = L::run(sc, &mut st);
+        let vs = run_lane::<L>(sc, &mut st);
         let text = serde_json::to_vec(&vs).unwrap_or_default();
         let mut off = 0;
         while off < text.len() {
